@@ -130,7 +130,7 @@ func genC14(t *rapid.T) any {
 		}
 	}
 	if hasAsyncCol && rapid.IntRange(0, 5).Draw(t, "tail") == 0 {
-		c.Tail = rapid.SampledFrom([]string{"distinct", "orderby", "derived-distinct", "derived-orderby"}).Draw(t, "tailkind")
+		c.Tail = rapid.SampledFrom([]string{"distinct", "orderby", "derived-distinct", "derived-orderby", "cte-distinct", "cte-orderby"}).Draw(t, "tailkind")
 	} else if rapid.IntRange(0, 6).Draw(t, "unionall") == 0 {
 		c.Tail = "union-all"
 	} else if rapid.IntRange(0, 5).Draw(t, "nested") == 0 {
@@ -196,20 +196,28 @@ func (c *C14Case) sql(qualified bool) string {
 	if c.Tail == "orderby" && firstAsync != "" {
 		s += " ORDER BY " + firstAsync + " DESC, ra, rs"
 	}
-	if strings.HasPrefix(c.Tail, "derived-") {
-		// the calls are made by a derived table; the outer query de-duplicates / sorts on their values
-		cols := []string{"d.ra AS ra", "d.rs AS rs"}
+	if strings.HasPrefix(c.Tail, "derived-") || strings.HasPrefix(c.Tail, "cte-") {
+		// the calls are made by a derived table / a CTE; the outer query de-duplicates / sorts on their values
+		pre := "d."
+		if strings.HasPrefix(c.Tail, "cte-") {
+			pre = ""
+		}
+		cols := []string{pre + "ra AS ra", pre + "rs AS rs"}
 		for _, it := range c.Items {
 			if it.Alias != "" && (qualified || (it.Q != "spin" && it.Q != "spinasync")) {
-				cols = append(cols, "d."+it.Alias+" AS "+it.Alias)
+				cols = append(cols, pre+it.Alias+" AS "+it.Alias)
 			}
 		}
 		outer := "SELECT "
-		if c.Tail == "derived-distinct" {
+		if strings.HasSuffix(c.Tail, "-distinct") {
 			outer = "SELECT DISTINCT "
 		}
-		s = outer + strings.Join(cols, ", ") + " FROM (" + s + ") d"
-		if c.Tail == "derived-orderby" && firstAsync != "" {
+		if pre == "" {
+			s = "WITH c AS (" + s + ") " + outer + strings.Join(cols, ", ") + " FROM c"
+		} else {
+			s = outer + strings.Join(cols, ", ") + " FROM (" + s + ") d"
+		}
+		if strings.HasSuffix(c.Tail, "-orderby") && firstAsync != "" {
 			s += " ORDER BY " + firstAsync + " DESC, ra, rs"
 		}
 	}
